@@ -620,7 +620,7 @@ func c07Funnel(c *Ctx) {
 			}
 			n++
 			key := "file-writer:" + core.FuncKey(fn)
-			okw := core.FuncKey(fn) == "(*querylog.queryLog).flushToFile" && call.Key == "os.OpenFile" && isC && flag&0x400 != 0 && flag&0x200 == 0
+			okw := core.FuncKey(fn) == "(*querylog.queryLog).flushToFile" && call.Key == "os.OpenFile" && isC && osFlag(p, "O_APPEND") > 0 && flag&osFlag(p, "O_APPEND") != 0 && flag&osFlag(p, "O_TRUNC") == 0
 			r.Check(okw, "C07-D3", key, p.InstrPos(call.Instr), "the log file is opened for writing only by flushToFile, in append mode without truncation",
 				"the query log file is opened for writing outside flushToFile or not in append mode: recorded entries can be overwritten")
 		}
